@@ -33,7 +33,7 @@ def resolve_anchors(F, X, rep=None, rid="anchors"):
     # --- helper functions by effect
     g = _groups_with(F, lambda c: c.name == "std::collections::HashMap::remove" and NM.PS() in c.full)
     A.resolve_fns = sorted(g)           # fns removing the table entry ("resolve")
-    g = _groups_with(F, lambda c: c.name == "std::vec::Vec::pop" and ONESHOT_SENDER in c.full)
+    g = _groups_with(F, lambda c: c.name in ("std::vec::Vec::pop", "std::vec::Vec::drain") and ONESHOT_SENDER in c.full)
     A.drain_fns = sorted(g)
     g = _groups_with(F, lambda c: c.name == "std::vec::Vec::push" and ONESHOT_SENDER in c.full)
     A.add_listener_fns = sorted(g)
